@@ -119,6 +119,50 @@ pub fn run(run: &mut Run) -> PResult {
         }
     }
     run.generator("52 cards x 16 mark sequences x 52 x 8 comparisons", "exhaustive", Some(52 * 16), n, nt, "cases = (card, sequence); each compared with all 52 x 8 other words");
+    if !run.is_twin() {
+        // call-order independence: every ordered pair of (card, marks) words, accessors read back to back
+        let items: Vec<(u32, u32)> = card::DECK.iter().flat_map(|c| (0..8u32).map(move |m| (*c, m))).collect();
+        let read = |w: u32| (w.get_rank_bit(), w.get_rank_flag(), w.get_rank_prime(), w.get_suit_bit(), w.get_suit_flag(), w.get_rank_char(), w.get_suit_char(), w.get_suit_letter(), w.get_card_rank(), w.get_card_suit(), w.strip_multiples_flags());
+        let hit = engine::ordered_pairs(
+            &items,
+            &|a| {
+                std::hint::black_box(read(a.0 | (a.1 << 29)));
+            },
+            &|b| {
+                let (got, want) = (read(b.0 | (b.1 << 29)), read(b.0));
+                if got == want && got.10 == b.0 {
+                    Ok(())
+                } else {
+                    Err(format!("the accessors on {} with mark number {} read {:?}, on the unmarked card {:?}", card::render(b.0), b.1, got, want))
+                }
+            },
+        );
+        let np = (items.len() * items.len()) as u64;
+        run.generator("all ordered pairs of marked words, accessors read back to back", "exhaustive (histories of length 2)", Some(np), np, np - items.len() as u64, "416 words (52 cards x 8 mark numbers)");
+        if let Some((a, b, m)) = hit {
+            let (wa, wb) = (items[a].0 | (items[a].1 << 29), items[b].0 | (items[b].1 << 29));
+            return run.violation("C20.sequence", &format!("{} ; {}", hex(wa), hex(wb)), json!({"words": [hex(wa), hex(wb)]}), &format!("after reading {}: {}", hex(wa), m));
+        }
+        // the marks give sorting priority: hands holding marked words sort by the numeric order (C11's oracle)
+        let mut ns = 0u64;
+        for (i, c) in card::DECK.iter().enumerate() {
+            for m in 1..8u32 {
+                for n in 2..=7usize {
+                    let mut ws: Vec<u32> = (0..n).map(|k| card::DECK[(i + 7 * k + 1) % 52]).collect();
+                    ws[n / 2] = *c | (m << 29);
+                    if n > 2 {
+                        ws[0] = card::DECK[(i + 3) % 52] | (((m + 2) % 8) << 29);
+                    }
+                    ns += 1;
+                    if let Err(e) = super::c11::sort_clause(&ws) {
+                        run.generator("hands holding marked words, sorted", "structured", None, ns, ns, "");
+                        return run.violation("C20.sort", &card::render_hand(&ws), json!({"words": ws.iter().map(|w| hex(*w)).collect::<Vec<_>>()}), &format!("marked words must sort by their numeric value (quads > trips > pair > unmarked): {}", e));
+                    }
+                }
+            }
+        }
+        run.generator("hands holding marked words, sorted", "structured", Some(ns), ns, ns, "52 cards x 7 mark numbers x sizes 2..7, a second marked word in slot 0");
+    }
     for i in 0..8u32 {
         run.class(&format!("mark number {}", i), 52 * seqs.iter().filter(|s| marks_of(s) == i).count() as u64);
     }
@@ -128,7 +172,23 @@ pub fn run(run: &mut Run) -> PResult {
     Ok(())
 }
 
-pub fn check_case(_clause: &str, case: &Value) -> Result<(), String> {
+pub fn check_case(clause: &str, case: &Value) -> Result<(), String> {
+    if clause == "C20.sort" {
+        return super::c11::sort_clause(&engine::parse_words(&case["words"])?);
+    }
+    if clause == "C20.sequence" {
+        let ws = engine::parse_words(&case["words"])?;
+        let read = |w: u32| (w.get_rank_bit(), w.get_rank_prime(), w.get_suit_bit(), w.get_rank_char(), w.get_suit_char(), w.get_card_rank(), w.get_card_suit(), w.strip_multiples_flags());
+        std::hint::black_box(read(card::DECK[30]));
+        for w in &ws {
+            let base = *w & 0x1FFF_FFFF;
+            let (got, want) = (read(*w), read(base));
+            if got != want {
+                return Err(format!("the accessors on {} read {:?}, on the unmarked card {:?}", hex(*w), got, want));
+            }
+        }
+        return Ok(());
+    }
     let w = engine::parse_word(&case["word"])?;
     let s: Vec<u8> = case["sequence"].as_array().ok_or("sequence")?.iter().map(|x| x.as_u64().unwrap_or(0) as u8).collect();
     clauses(w, &s)
